@@ -111,7 +111,7 @@ func init() {
 				if id, ok := ast.Unparen(v.X).(*ast.Ident); ok && len(v.Body.List) == 1 {
 					if es, ok := v.Body.List[0].(*ast.ExprStmt); ok {
 						if call, ok := es.X.(*ast.CallExpr); ok && p.Callee(call) == add.Obj {
-							reName = id.Name
+							reName = norm(p.Canon(id))
 						}
 					}
 				}
@@ -120,7 +120,7 @@ func init() {
 					if call, ok := ast.Unparen(v.Rhs[0]).(*ast.CallExpr); ok {
 						if f := p.Callee(call); f != nil && f.Name() == "retransmitLimit" {
 							if id, ok := v.Lhs[0].(*ast.Ident); ok {
-								limName = id.Name
+								limName = norm(p.Canon(id))
 							}
 						}
 					}
@@ -182,7 +182,7 @@ func init() {
 		reAdd := false
 		inspectFn(get, func(n ast.Node) bool {
 			if rs, ok := n.(*ast.RangeStmt); ok {
-				if id, ok := ast.Unparen(rs.X).(*ast.Ident); ok && id.Name == reName && len(rs.Body.List) == 1 {
+				if id, ok := ast.Unparen(rs.X).(*ast.Ident); ok && norm(p.Canon(id)) == reName && len(rs.Body.List) == 1 {
 					if es, ok := rs.Body.List[0].(*ast.ExprStmt); ok {
 						if call, ok := es.X.(*ast.CallExpr); ok && p.Callee(call) == add.Obj {
 							reAdd = true
